@@ -13,6 +13,7 @@ import (
 	"net"
 	"os"
 	"path/filepath"
+	"regexp"
 	"sync"
 	"sync/atomic"
 	"time"
@@ -207,8 +208,38 @@ func main() {
 	dir, _ := ioutil.TempDir("", "verif-race")
 	defer os.RemoveAll(dir)
 
-	mc := ipfix.GetCache(filepath.Join(dir, "absent"))
-	mc9 := netflow9.GetCache(filepath.Join(dir, "absent"))
+	// the caches start from SAVED files, as after a restart: templates of 48 exporters that have since gone silent, stamped
+	// 30 days ago, a year ago, 0 and in the future (whatever housekeeping looks at the age of an entry then has work to do
+	// while lookups and dumps run)
+	aged := func(file string, dump func(string) error) {
+		if err := dump(file); err != nil {
+			return
+		}
+		b, err := ioutil.ReadFile(file)
+		if err != nil {
+			return
+		}
+		now := time.Now().Unix()
+		stamps := []int64{now - 30*86400, now - 366*86400, 0, now + 86400, now - 4*86400}
+		k := 0
+		out := regexp.MustCompile(`"Timestamp":\d+`).ReplaceAllFunc(b, func([]byte) []byte {
+			k++
+			return []byte(fmt.Sprintf(`"Timestamp":%d`, stamps[k%len(stamps)]))
+		})
+		ioutil.WriteFile(file, out, 0644)
+	}
+	seed10, seed9 := ipfix.GetCache(filepath.Join(dir, "absent")), netflow9.GetCache(filepath.Join(dir, "absent"))
+	for e := 0; e < 48; e++ {
+		ip := net.IPv4(203, 0, 113, byte(1+e)).To4()
+		for t := 0; t < 20; t++ {
+			ipfix.NewDecoder(ip, ipfixTemplateMsg(2000+t, fieldsOf(e%3, 2000+t, t%8))).Decode(seed10)
+			netflow9.NewDecoder(ip, nf9TemplateMsg(2000+t, fieldsOf(e%3, 2000+t, t%8))).Decode(seed9)
+		}
+	}
+	aged(filepath.Join(dir, "saved10.json"), seed10.Dump)
+	aged(filepath.Join(dir, "saved9.json"), seed9.Dump)
+	mc := ipfix.GetCache(filepath.Join(dir, "saved10.json"))
+	mc9 := netflow9.GetCache(filepath.Join(dir, "saved9.json"))
 	rpc := ipfix.NewRPC(mc)
 	exporters := []net.IP{net.ParseIP("10.0.0.1").To4(), net.ParseIP("10.0.0.2").To4(), net.ParseIP("2001:db8::1"), net.ParseIP("10.0.0.1")}
 	tids := []int{256, 257, 300}
@@ -252,6 +283,17 @@ func main() {
 		}(w)
 	}
 	wg.Add(3)
+	wg.Add(1)
+	go func() { // lookups of the silent exporters' saved templates (their shards are read while dumps run)
+		defer wg.Done()
+		for i := 0; atomic.LoadInt32(&stop) == 0; i++ {
+			ip := net.IPv4(203, 0, 113, byte(1+i%48)).To4()
+			var tr ipfix.TemplateRecord
+			rpc.Get(ipfix.RPCRequest{ID: uint16(2000 + i%20), IP: ip}, &tr)
+			netflow9.NewDecoder(ip, dataMsg(9, 2000+i%20)).Decode(mc9)
+			atomic.AddUint64(&gets, 1)
+		}
+	}()
 	go func() { // peer lookups: every answer is one complete announced definition for exactly that key
 		defer wg.Done()
 		for i := 0; atomic.LoadInt32(&stop) == 0; i++ {
